@@ -6,7 +6,7 @@
 From DV Require Import Base.Prelude Model.NameM Model.TokM Model.RdTextM.
 From DV Require Import Proofs.NameValid Proofs.NameOrder Proofs.NameText.
 From DV Require Import Proofs.TokEsc Proofs.TokTxt Proofs.TokWords Proofs.TokDec Proofs.TokHex
-     Proofs.TokShape Proofs.TokGeneric Proofs.TokUtf8 Proofs.RdTextName Proofs.RdTextAddr Proofs.RdTextBitmap Proofs.RdText Proofs.RdTextRel.
+     Proofs.TokShape Proofs.TokGeneric Proofs.TokUtf8 Proofs.RdTextName Proofs.RdTextAddr Proofs.RdTextBitmap Proofs.RdTextTypes Proofs.RdText Proofs.RdTextRel.
 Open Scope Z_scope.
 
 (* ------------------------------------------------------------------ character-strings *)
@@ -151,6 +151,14 @@ Theorem type_bitmap_roundtrip : forall ws,
   canon_from (-1) ws -> no_type0 ws -> from_rdtypes (bitmap_types ws) = ws.
 Proof. exact bitmap_text_roundtrip. Qed.
 Print Assumptions type_bitmap_roundtrip.
+
+(* dns/rdatatype.py: RdataType.from_text (RdataType.to_text v) = v for every type value (mnemonic, with
+   '_' printed as '-', or TYPEnnn), and the printed form is a non-empty tokenizer word: finite sweep over
+   the 65536 values.  With type_bitmap_roundtrip this puts NSEC and CSYNC under text_roundtrip_schema. *)
+Theorem type_mnemonic_roundtrip : forall v, 0 <= v < 65536 ->
+  exists n, rdtype_to_text v = Ok n /\ n <> [] /\ forallb safe n = true /\ rdtype_from_text n = Ok v.
+Proof. exact rdtype_facts. Qed.
+Print Assumptions type_mnemonic_roundtrip.
 
 Example type_bitmap_roundtrip_nonvacuous :
   (* A RRSIG NSEC (window 0, 6 octets) and CAA (window 1, 1 octet): the later window is shorter *)
